@@ -664,6 +664,39 @@ TERMINATORS = {"abort", "exit", "_exit", "_Exit", "quick_exit", "std::terminate"
                "std::quick_exit", "std::_Exit", "raise", "kill", "pthread_exit"}
 
 
+_GUARDS_CACHE = {}
+
+
+def _refine_by_facts(fn, ret, vs):
+    """Values of a returned variable that the facts holding at the return statement allow
+    (`if (rc != KEEP_GOING) return rc;` never returns KEEP_GOING)."""
+    e = strip_all(ret["c"][0])
+    if e is None or e.get("k") != "DeclRefExpr" or len(vs) <= 1:
+        return vs
+    g = _GUARDS_CACHE.get(fn.uid)
+    if g is None:
+        g = _GUARDS_CACHE[fn.uid] = Guards(fn)
+    out = set(vs)
+    for l, rel, rr in (g.cmps(ret) or []):
+        ls = strip_all(l)
+        c = folded(rr)
+        if ls is None or ls.get("k") != "DeclRefExpr" or ls.get("d") != e.get("d") or c is None:
+            continue
+        if rel == "!=":
+            out.discard(c)
+        elif rel == "==":
+            out &= {c}
+        elif rel == "<":
+            out = {v for v in out if v < c}
+        elif rel == "<=":
+            out = {v for v in out if v <= c}
+        elif rel == ">":
+            out = {v for v in out if v > c}
+        elif rel == ">=":
+            out = {v for v in out if v >= c}
+    return out or vs
+
+
 def value_set(prog, fn, e, depth=0):
     """Set of constant values an int expression can take, or None if unknown."""
     e = strip_all(e)
@@ -692,7 +725,7 @@ def value_set(prog, fn, e, depth=0):
                 vs = value_set(prog, t, rt["c"][0], depth + 1)
                 if vs is None:
                     return None
-                out |= vs
+                out |= _refine_by_facts(t, rt, vs)
         return out
     if k == "DeclRefExpr" and e.get("dk") == "Var":
         # local assigned only constants
